@@ -18,6 +18,7 @@ KNOWN = [
     ("C12-P-write_bitpacked1-input-cursor-leaves-buffer", "C12", r"^write_bitpacked1\.input_cursor_stays_in_buffer\[count>=1\]$"),
 ]
 MAX_REPLAYS = 8
+KNOWN.append(("C11-P-dict-index-int64-codes-width-64", "C11", r"^dict_index\.pair_roundtrip\[codes:int64( if [^\]]*)?\]$"))
 ROUNDTRIP = re.compile(r"^(bitpacked\.roundtrip\[|hybrid\.header_roundtrip|dict_index\.roundtrip\[|bitpacked1\.roundtrip)")
 
 
@@ -88,6 +89,56 @@ def p_encoders(ctx):
                 ctx.violation(name, {"function": func, "model": model, "solver_output": str(model)[:600], "replay_result": text,
                                      "snippet": (prog + "\nVIOLATED = " + repr(confirmed)) if prog else None}, confirmed,
                               what=((detail or "") + " | native: " + text)[:400])
+    if ctx.prop == "C11":
+        _pairs(ctx, known, in_region)
     for fid, (n_ok, n_bad) in in_region.items():
         if n_bad == 0 and n_ok > 0:
             ctx.note(f"known finding {fid}: every obligation of its region now passes (defect appears repaired upstream)")
+
+
+def _pairs(ctx, known, in_region):
+    """codec PAIRS and codec PURITY (contracts/c11_codecpairs.py): encode_dict <-> the reader's dictionary-index branch on the element types the
+    call site in write_column can produce; every function of encoding.py is a function of its arguments only"""
+    from contracts import c11_codecpairs as P
+    from vc.front_py import parse_module
+    for rel, names, mod in (("fastparquet/writer.py", ["write_column"], "writer"), ("fastparquet/core.py", ["read_data_page"], "core"),
+                            ("fastparquet/encoding.py", None, "encoding")):
+        try:
+            fs, _, _ = parse_module(rel)
+            for q, f in fs.items():
+                if names is None and "." not in q or names and q in names:
+                    ctx.function(f"{mod}.{q}", f.sha, f.report)
+        except Exception:
+            pass
+    for a in P.ASSUMED:
+        if a not in ctx.assumptions:
+            ctx.assumptions.append(a)
+    for part, fn in (("dict_index", P.dict_index_pair), ("decoder_purity", P.decoder_purity)):
+        try:
+            res = fn(10000 if ctx.tier == "quick" else 60000)
+        except Exception as ex:            # the analysis failed on the current source: undecided, never a violation
+            ctx.obligation(f"{part}.out_of_reach", "writer.write_column" if part == "dict_index" else "encoding.read_plain", UNKNOWN, "engine", 0.0,
+                           detail=f"{type(ex).__name__}: {ex}", sample=True)
+            continue
+        for name in res.order:
+            entries = res.d[name]
+            sts = [e[0] for e in entries]
+            st = REFUTED if REFUTED in sts else UNKNOWN if UNKNOWN in sts else PROVED
+            e = next((x for x in entries if x[0] == st), entries[0])
+            m = re.match(r"decoder_purity\[(\w+)\]", name)
+            func = ("encoding." + m.group(1)) if m else "encoding.read_plain" if part == "decoder_purity" else \
+                "core.read_data_page" if "reader_branches" in name else "writer.write_column"
+            fid = next((f for f, rx in known if rx.search(name)), None)
+            if fid is not None:
+                in_region.setdefault(fid, [0, 0])[0 if st == PROVED else 1] += 1
+            if st == REFUTED and fid is not None and ctx.is_known(fid):
+                ctx.obligation(name, func, "refuted-known", e[3], e[2], detail=e[4], model=e[1], sample=True)
+                ctx.known_finding(fid)
+                continue
+            ctx.obligation(name, func, st, e[3], e[2], detail=e[4], model=e[1] if st != PROVED else None, sample=True)
+            if st == REFUTED:
+                confirmed, text, prog = P.replay_dict_index(name, e[1] or {}, REPO) if part == "dict_index" else \
+                    (False, "structural obligation on the source text (no input to replay)", None)
+                ctx.violation(name, {"function": func, "model": e[1], "solver_output": str(e[1])[:600], "replay_result": text,
+                                     "snippet": (prog + "\nVIOLATED = " + repr(confirmed)) if prog else None}, confirmed,
+                              what=((e[4] or "") + " | " + str(e[1])[:200] + " | native: " + text)[:500])
